@@ -108,9 +108,11 @@ class LunrIndexWriter:
             assert ob.parsed_docstring is not None
             try:
                 doc = ' '.join(node2stan.gettext(ob.parsed_docstring.to_node()))
-            except NotImplementedError:
+            except Exception:
                 # some ParsedDocstring subclass raises NotImplementedError on calling to_node()
-                # Like ParsedPlaintextDocstring.
+                # Like ParsedPlaintextDocstring. 
+                # Any other failure of the conversion is reported when the docstring itself is rendered, 
+                # index the raw text in this case as well.
                 doc = source.docstring
         return doc
 
